@@ -51,7 +51,7 @@ deriving Repr, DecidableEq
 def step (bound : Nat) (t : CTab) : Op → CTab × Out
   | .alloc =>
     let k := t.slab.vacantKey
-    if allocate_session.cond_if_0 k bound then (t, .channelMaxReached)
+    if allocate_session.cond_if_0 (outgoing_channel := k) (self_agreed_channel_max := bound) then (t, .channelMaxReached)
     else
       ({ t with slab := (t.slab.insert "").1, bySlot := put k t.next t.bySlot, next := t.next + 1 }, .allocated t.next k)
   | .inBegin ch remote =>
